@@ -280,6 +280,13 @@ class TimeCachingAdapter(Adapter, NoBranchAdapter, ABC):
                 os.remove(d)
         self.data.clear()
 
+    def _unpack(self, where):
+        if isinstance(where, str):
+            # buffered data is in the units of the source, not of the adapter's output
+            data = np.load(where, allow_pickle=True)
+            return dtools.UNITS.Quantity(data, self._input_info.units)
+        return where
+
     @abstractmethod
     def _interpolate(self, time):
         """Interpolate for the given time"""
